@@ -27,6 +27,7 @@ type c11sCase struct {
 	Role     string   `json:"role"`
 	State    string   `json:"state"` // pre | logged | probing | logout
 	Type     string   `json:"type"`  // MsgType value; "" = no MsgType field at all
+	TypeRaw  []byte   `json:"type_raw,omitempty"` // the value as bytes when it is not text (takes precedence)
 	Tokens   []string `json:"tokens"`
 	BadSum   bool     `json:"bad_sum,omitempty"`
 }
@@ -43,9 +44,9 @@ var c11sTokens = []string{
 	"10=000", "10", "9=5", "8=FIX.4.4", "=", "", "=5", "1=",
 }
 
-func c11sFrame(typ string, toks []string, badSum bool) []byte {
+func c11sFrame(typ string, absent bool, toks []string, badSum bool) []byte {
 	var body strings.Builder
-	if typ != "\x00" {
+	if !absent {
 		body.WriteString("35=" + typ + "\x01")
 	}
 	for _, t := range toks {
@@ -91,10 +92,10 @@ func c11sRun(c c11sCase) (string, string) {
 		vsched.Settle()
 	}
 	typ := c.Type
-	if typ == "" {
-		typ = "\x00"
+	if c.TypeRaw != nil {
+		typ = string(c.TypeRaw)
 	}
-	m := c11sFrame(typ, c.Tokens, c.BadSum)
+	m := c11sFrame(typ, typ == "", c.Tokens, c.BadSum)
 	w.in(m)
 	// a second, ordinary message must still get through the dispatch loop (unless the first one had no usable
 	// MsgType: the handler treats that as fatal for the connection, by design)
@@ -150,6 +151,33 @@ func runC11sess(R *vlib.Out) {
 	}
 	gen(nil)
 	unit := 0
+	// every one-byte MsgType value (the dispatch key is made from these bytes), and a few longer ones, with a
+	// plain header; in every state
+	var oddTypes []string
+	for b := 0; b < 256; b++ {
+		if b != 1 {
+			oddTypes = append(oddTypes, string([]byte{byte(b)}))
+		}
+	}
+	oddTypes = append(oddTypes, "AA", "\xe9\xe9", "0\x00", "A=", "=", " A", strings.Repeat("A", 300), "\xf0\x9f\x98\x80")
+	R.Bounds["session_msgtype_values"] = len(oddTypes) + 9
+	for _, role := range []string{"acc", "ini"} {
+		for _, state := range []string{"pre", "logged", "probing", "logout"} {
+			for _, typ := range oddTypes {
+				for _, toks := range [][]string{{}, {"34=2"}} {
+					unit++
+					if !vlib.Mine(unit) {
+						continue
+					}
+					if unit%64 == 0 && vlib.Expired() {
+						R.Cap("deadline")
+						return
+					}
+					one(c11sCase{Scenario: "c11sess", Role: role, State: state, Type: strconv.Quote(typ), TypeRaw: []byte(typ), Tokens: toks})
+				}
+			}
+		}
+	}
 	for _, role := range []string{"acc", "ini"} {
 		for _, state := range []string{"pre", "logged", "probing", "logout"} {
 			for _, typ := range []string{"0", "1", "2", "3", "4", "5", "A", "D", ""} {
